@@ -2,6 +2,7 @@ package main
 
 import (
 	"fmt"
+	"path/filepath"
 	"go/constant"
 	"go/token"
 	"go/types"
@@ -42,6 +43,7 @@ type Interp struct {
 	sched *Sched
 	tier  int
 	spec  *HarnessSpec
+	curIf *ssa.If
 }
 
 func NewInterp(prog *ssa.Program, ex *Explorer) *Interp {
@@ -93,6 +95,13 @@ func (in *Interp) mkInt(t *Term, w int, signed bool) Int {
 func (in *Interp) truth(b Bool) bool {
 	if b.S == nil {
 		return b.C
+	}
+	if in.curIf != nil && in.ex.depth >= len(in.ex.vec) {
+		pos := in.prog.Fset.Position(in.curIf.Cond.Pos())
+		if !pos.IsValid() {
+			pos = in.prog.Fset.Position(in.curIf.Pos())
+		}
+		in.ex.brSite = fmt.Sprintf("%s:%d", filepath.Base(pos.Filename), pos.Line)
 	}
 	return in.ex.branch(b.S)
 }
@@ -349,6 +358,9 @@ func (in *Interp) loop(fr *frame, initCtx bool) V {
 				}
 			case *ssa.If:
 				c := in.get(fr, x.Cond).(Bool)
+				if c.S != nil {
+					in.curIf = x
+				}
 				if in.truth(c) {
 					next = b.Succs[0]
 				} else {
